@@ -1,6 +1,7 @@
 /-
-  C09 — OverlappingFieldsCanBeMerged as implemented is SOUND for §5.3.2 Field Selection Merging on
-  documents all of whose inline fragments carry a type condition (`overlap_sound`):
+  C09 — OverlappingFieldsCanBeMerged (repaired in one point: an inline fragment WITHOUT type condition
+  files its fields under the `on_type` of the enclosing selection; the pinned behaviour, `None`, is the
+  toggle `overlapUntypedInlineKeyedNone`) is SOUND for §5.3.2 Field Selection Merging (`overlap_sound`):
   `FindConflicts::find` files, one after the other, the fields the reference validator's
   `fieldsInSet` collects (`findConflicts_eq`, `flat_rel`: same recursion, same fuel, same visited
   set); a report means two collected fields with the same `on_type` and response key that differ in
@@ -20,7 +21,7 @@ def flatM (d : Doc) : Nat → Option String → List Sel → List String → Lis
     sels.foldl (fun acc s =>
       match s with
       | .field al n args _ _ _ => (acc.1 ++ [{ cond, key := al.getD n, name := n, args }], acc.2)
-      | .inline c _ ss _ => (acc.1 ++ (flatM d fuel c ss acc.2).1, (flatM d fuel c ss acc.2).2)
+      | .inline c _ ss _ => (acc.1 ++ (flatM d fuel (inlineCond false cond c) ss acc.2).1, (flatM d fuel (inlineCond false cond c) ss acc.2).2)
       | .spread n _ _ =>
         match d.frag? n with
         | some f =>
@@ -63,7 +64,7 @@ theorem after_visited (st0 acc) : (after st0 acc).visited = acc.2 := rfl
 
 /-- `FindConflicts::find` files the fields of `flatM` one after the other -/
 theorem findConflicts_eq (d : Doc) (fuel : Nat) (cond : Option String) (sels : List Sel) (st : FCState) :
-    findConflicts d fuel cond sels st =
+    findConflicts d false fuel cond sels st =
       { addAll st (flatM d fuel cond sels st.visited).1 with visited := (flatM d fuel cond sels st.visited).2 } := by
   induction fuel generalizing cond sels st with
   | zero => simp [findConflicts, flatM, addAll]
@@ -74,17 +75,17 @@ theorem findConflicts_eq (d : Doc) (fuel : Nat) (cond : Option String) (sels : L
         sels.foldl (fun st s =>
           match s with
           | .field al n args _ _ _ => addOutput st cond (al.getD n) n args
-          | .inline c _ ss _ => findConflicts d fuel c ss st
+          | .inline c _ ss _ => findConflicts d false fuel (inlineCond false cond c) ss st
           | .spread n _ _ =>
             match d.frag? n with
             | some f =>
               if st.visited.contains n then st
-              else findConflicts d fuel (some f.cond) f.sels { st with visited := n :: st.visited }
+              else findConflicts d false fuel (some f.cond) f.sels { st with visited := n :: st.visited }
             | none => st) st' =
         after st (sels.foldl (fun acc s =>
           match s with
           | .field al n args _ _ _ => (acc.1 ++ [{ cond, key := al.getD n, name := n, args }], acc.2)
-          | .inline c _ ss _ => (acc.1 ++ (flatM d fuel c ss acc.2).1, (flatM d fuel c ss acc.2).2)
+          | .inline c _ ss _ => (acc.1 ++ (flatM d fuel (inlineCond false cond c) ss acc.2).1, (flatM d fuel (inlineCond false cond c) ss acc.2).2)
           | .spread n _ _ =>
             match d.frag? n with
             | some f =>
@@ -184,7 +185,7 @@ theorem addAll_inv (fs : List OutField) (st : FCState) (seenF : List OutField)
 
 /-- a report of the implemented rule on a selection set comes from two collected fields in conflict -/
 theorem errs_conf (d : Doc) (fuel : Nat) (ss : List Sel) (k : Model.Validate.Kind)
-    (hk : k ∈ (findConflicts d fuel none ss {}).errs) :
+    (hk : k ∈ (findConflicts d false fuel none ss {}).errs) :
     ∃ a ∈ (flatM d fuel none ss []).1, ∃ b ∈ (flatM d fuel none ss []).1, Conf a b := by
   rw [findConflicts_eq] at hk
   have hne : (addAll {} (flatM d fuel none ss []).1).errs ≠ [] := by
@@ -216,14 +217,6 @@ theorem mem_flatSels_of (ss : List Sel) (s x : Sel) (hs : s ∈ ss) (hx : x ∈ 
     · exact Or.inl hx
     · exact Or.inr (ih h)
 
-/-- an inline fragment carries a type condition -/
-def inlineTyped : Sel → Prop
-  | .inline c _ _ _ => c.isSome = true
-  | _ => True
-
-/-- every inline fragment of the selections (at any depth) carries a type condition -/
-def TypedInlines (ss : List Sel) : Prop := ∀ s ∈ flatSels ss, inlineTyped s
-
 /-- a collected field of the implementation against one of the reference validator: same response
     key, name and arguments; filed under the `on_type` of the set and selected on its parent type, or
     filed under a type condition and selected on that type -/
@@ -254,15 +247,15 @@ theorem AccRel_append (c0 p0 : Option String) (a : List OutField × List String)
   · obtain ⟨f, hf, hr⟩ := hxy.2 o ho; exact ⟨f, List.mem_append_right _ hf, hr⟩
 
 /-- the implementation and the reference validator collect the same fields from a selection set -/
-theorem flat_rel (S : VSchema) (d : Doc) (hd : ∀ f ∈ d.frags, TypedInlines f.sels) (fuel : Nat) :
-    ∀ (c0 p0 : Option String) (sels : List Sel) (seen : List String), TypedInlines sels →
+theorem flat_rel (S : VSchema) (d : Doc) (fuel : Nat) :
+    ∀ (c0 p0 : Option String) (sels : List Sel) (seen : List String),
       AccRel c0 p0 (flatM d fuel c0 sels seen) (fieldsInSet S d fuel p0 sels seen) := by
   induction fuel with
-  | zero => intro c0 p0 sels seen _; exact ⟨rfl, by intro o ho; simp [flatM] at ho⟩
+  | zero => intro c0 p0 sels seen; exact ⟨rfl, by intro o ho; simp [flatM] at ho⟩
   | succ fuel ih =>
-    intro c0 p0 sels seen hT
+    intro c0 p0 sels seen
     rw [flatM, fieldsInSet]
-    apply foldl_rel (AccRel c0 p0) (fun s => ∀ x ∈ flatSel s, inlineTyped x)
+    apply foldl_rel (AccRel c0 p0) (fun _ => True)
     · intro a b s hs hab
       cases s with
       | field al n args ds ss p =>
@@ -276,13 +269,15 @@ theorem flat_rel (S : VSchema) (d : Doc) (hd : ∀ f ∈ d.frags, TypedInlines f
             exact ⟨_, List.mem_singleton.mpr rfl, rfl, rfl, rfl, Or.inl ⟨rfl, rfl⟩⟩⟩
         exact this
       | inline c ds ss p =>
-        have hc : inlineTyped (.inline c ds ss p) := hs _ (by simp [flatSel])
         cases c with
-        | none => simp [inlineTyped] at hc
+        | none =>
+          simp only [inlineCond, Bool.false_eq_true, if_false]
+          have h := ih c0 p0 ss a.2
+          rw [hab.1] at h ⊢
+          exact AccRel_append c0 p0 a b _ _ hab ⟨h.1, h.2⟩
         | some t =>
-          simp only []
-          have hss : TypedInlines ss := fun x hx => hs x (by simp [flatSel, hx])
-          have h := ih (some t) (some t) ss a.2 hss
+          simp only [inlineCond]
+          have h := ih (some t) (some t) ss a.2
           rw [hab.1] at h ⊢
           exact AccRel_append c0 p0 a b _ _ hab ⟨h.1, fun o ho => by
             obtain ⟨f, hf, hr⟩ := h.2 o ho; exact ⟨f, hf, FRel_lift c0 p0 t o f hr⟩⟩
@@ -298,12 +293,10 @@ theorem flat_rel (S : VSchema) (d : Doc) (hd : ∀ f ∈ d.frags, TypedInlines f
           by_cases hc : b.2.contains n = true
           · simp only [hc, if_true]; exact ⟨by rw [← hab.1], hab.2⟩
           · simp only [hc, Bool.false_eq_true, if_false]
-            have hfs : TypedInlines f.sels := hd f (List.mem_of_find?_eq_some hf)
-            have h := ih (some f.cond) (some f.cond) f.sels (n :: b.2) hfs
+            have h := ih (some f.cond) (some f.cond) f.sels (n :: b.2)
             exact AccRel_append c0 p0 a b _ _ hab ⟨h.1, fun o ho => by
               obtain ⟨g, hg, hr⟩ := h.2 o ho; exact ⟨g, hg, FRel_lift c0 p0 f.cond o g hr⟩⟩
-    · intro s hs x hx
-      exact hT x (mem_flatSels_of sels s x hs hx)
+    · intro _ _; trivial
     · exact ⟨rfl, by intro o ho; cases ho⟩
 
 end AGV.Lemmas.ValidateOverlap
@@ -360,13 +353,13 @@ theorem conf_spec (S : VSchema) (d : Doc) (fuel : Nat) (p0 : Option String) (L :
   · simp [argsEqual_false_of _ _ (Or.inl h)]
   · simp [argsEqual_false_of _ _ (Or.inr h)]
 
-/-- a report of the implemented rule at a selection set makes the reference validator refuse the
-    same set, whatever parent type it is checked under (all inline fragments typed) -/
-theorem report_spec (S : VSchema) (d : Doc) (hd : ∀ f ∈ d.frags, TypedInlines f.sels) (fuel : Nat) (p0 : Option String)
-    (ss : List Sel) (hss : TypedInlines ss) (k : Model.Validate.Kind) (hk : k ∈ (findConflicts d (fuel + 1) none ss {}).errs) :
+/-- a report of the rule at a selection set makes the reference validator refuse the same set,
+    whatever parent type it is checked under -/
+theorem report_spec (S : VSchema) (d : Doc) (fuel : Nat) (p0 : Option String)
+    (ss : List Sel) (k : Model.Validate.Kind) (hk : k ∈ (findConflicts d false (fuel + 1) none ss {}).errs) :
     setCanMerge S d (fuel + 1) true (fieldsInSet S d (fuel + 1) p0 ss []).1 = false := by
   obtain ⟨a, ha, b, hb, hc⟩ := errs_conf d (fuel + 1) ss k hk
-  have hrel := flat_rel S d hd (fuel + 1) none p0 ss [] hss
+  have hrel := flat_rel S d (fuel + 1) none p0 ss []
   exact conf_spec S d fuel p0 _ a b hc (hrel.2 a ha) (hrel.2 b hb)
 
 end AGV.Lemmas.ValidateOverlap
@@ -517,49 +510,28 @@ theorem enterSet_cases (S : VSchema) (d : Doc) (e : Evt) (he : e ∈ events S {}
       · simp [Model.Validate.mk] at h
       · simp [Model.Validate.mk] at h
 
-/-- every inline fragment of the document carries a type condition -/
-def DocTypedInlines (d : Doc) : Prop := ∀ s ∈ allSels d, inlineTyped s
-
-instance : DecidablePred inlineTyped := fun s => by cases s <;> (unfold inlineTyped; infer_instance)
-instance (d : Doc) : Decidable (DocTypedInlines d) := by unfold DocTypedInlines; infer_instance
-
-theorem typed_of_mem (d : Doc) (hd : DocTypedInlines d) (ss : List Sel) (h : ∀ x ∈ flatSels ss, x ∈ allSels d) : TypedInlines ss :=
-  fun x hx => hd x (h x hx)
-
-theorem allSels_frag (d : Doc) (f : FragDef) (hf : f ∈ d.frags) : ∀ x ∈ flatSels f.sels, x ∈ allSels d := by
-  intro x hx; simp only [allSels, List.mem_append, List.mem_flatMap]; exact Or.inr ⟨f, hf, hx⟩
-theorem allSels_op (d : Doc) (o : OpDef) (ho : o ∈ d.ops) : ∀ x ∈ flatSels o.sels, x ∈ allSels d := by
-  intro x hx; simp only [allSels, List.mem_append, List.mem_flatMap]; exact Or.inl ⟨o, ho, hx⟩
-
-theorem allSels_trans (d : Doc) (y : Sel) (hy : y ∈ allSels d) (x : Sel) (hx : x ∈ flatSel y) : x ∈ allSels d := by
-  simp only [allSels, List.mem_append, List.mem_flatMap] at hy ⊢
-  rcases hy with ⟨o, ho, hy⟩ | ⟨f, hf, hy⟩
-  · exact Or.inl ⟨o, ho, flatSels_trans _ y hy x hx⟩
-  · exact Or.inr ⟨f, hf, flatSels_trans _ y hy x hx⟩
-
-/-- OverlappingFieldsCanBeMerged is SOUND w.r.t. §5.3.2 Field Selection Merging on documents all of
-    whose inline fragments carry a type condition: whatever it reports is a conflict for the
+/-- OverlappingFieldsCanBeMerged (with condition-less inline fragments filed under the enclosing
+    `on_type`) is SOUND w.r.t. §5.3.2 Field Selection Merging: whatever it reports is a conflict for the
     reference validator too (the converse is the defect `overlapKeyedByCondition`). -/
-theorem overlap_sound (S : VSchema) (d : Doc) (hs : Served S d) (hd : DocTypedInlines d) (k : Model.Validate.Kind)
-    (hk : k ∈ ruleOverlap d (events S {} d)) : violates_FieldSelectionMerging S d = true := by
+theorem overlap_sound (S : VSchema) (d : Doc) (hs : Served S d) (k : Model.Validate.Kind)
+    (hk : k ∈ ruleOverlap {} d (events S {} d)) : violates_FieldSelectionMerging S d = true := by
   obtain ⟨fuel, hfuel⟩ : ∃ f, Spec.Validate.docFuel d = f + 1 := by
     rw [docFuel_eq]
     exact ⟨1 + (d.frags.map (fun f => Spec.Validate.selsSize f.sels + 1)).sum + (d.ops.map (fun o => Spec.Validate.selsSize o.sels + 1)).sum, by omega⟩
-  have hdf : ∀ f ∈ d.frags, TypedInlines f.sels := fun f hf => typed_of_mem d hd _ (allSels_frag d f hf)
   unfold ruleOverlap at hk
   obtain ⟨e, he, hk⟩ := List.mem_flatMap.mp hk
   split at hk
   · rename_i ss hev
     rw [docFuel_model_eq, hfuel] at hk
-    have key : ∀ p0, TypedInlines ss → specCheck S d p0 ss = true := by
-      intro p0 hss
+    have key : ∀ p0, specCheck S d p0 ss = true := by
+      intro p0
       unfold specCheck
-      rw [hfuel, report_spec S d hdf fuel p0 ss hss k hk]; rfl
+      rw [hfuel, report_spec S d fuel p0 ss k hk]; rfl
     rw [merging_eq]
     simp only [Bool.or_eq_true, List.any_eq_true]
     rcases enterSet_cases S d e he ss hev with ⟨f, hf, rfl⟩ | ⟨o, ho, rfl⟩ | ⟨v, hv, hne, hsel⟩
-    · exact Or.inl (Or.inr ⟨f, hf, key _ (hdf f hf)⟩)
-    · exact Or.inl (Or.inl ⟨o, ho, key _ (typed_of_mem d hd _ (allSels_op d o ho))⟩)
+    · exact Or.inl (Or.inr ⟨f, hf, key _⟩)
+    · exact Or.inl (Or.inl ⟨o, ho, key _⟩)
     · right
       have hmem : v.2 ∈ allSels d := by
         rw [← docSels_served S d hs, ← docVisits_snd]; exact List.mem_map_of_mem hv
@@ -568,19 +540,13 @@ theorem overlap_sound (S : VSchema) (d : Doc) (hs : Served S d) (hd : DocTypedIn
       obtain ⟨p, s⟩ := w
       simp only at hw2
       subst hw2
-      have hsub : TypedInlines ss := by
-        apply typed_of_mem d hd
-        intro x hx
-        apply allSels_trans d v.2 hmem x
-        rcases hsel with ⟨al, n, args, ds, q, h⟩ | ⟨c, ds, q, h⟩ <;> rw [h] <;> simp [flatSel, hx]
       rcases hsel with ⟨al, n, args, ds, q, h⟩ | ⟨c, ds, q, h⟩
       · rw [h]
         simp only [toNode, nodeCheck, Bool.and_eq_true, Bool.not_eq_true', List.isEmpty_eq_false_iff]
-        exact ⟨hne, key _ hsub⟩
+        exact ⟨hne, key _⟩
       · rw [h]
         simp only [toNode, nodeCheck]
-        exact key _ hsub
+        exact key _
   · cases hk
 
 end AGV.Lemmas.ValidateOverlap
-
